@@ -18,6 +18,8 @@ def run(rep):
     rep.guard(k3, rep, w)
     rep.guard(k4, rep, w)
     rep.guard(k5, rep, w)
+    import c18
+    rep.guard(c18.q6, rep, w)     # the for loop's implicit it.next() is dispatched like a written one (fields of the instance first)
     import c06
     rep.guard(c06.s2, rep, w)     # a class declared in a local scope is a captured local of its own methods: scope exit (also by break /
     rep.guard(c06.s4, rep, w)     # continue) has to close it, and the open-upvalue list must keep every entry
